@@ -177,9 +177,17 @@ func (k Keeper) cleanupTimedOutBatches(ctx sdk.Context) {
 
 func (k Keeper) cleanupTimeOutBridgeCall(ctx sdk.Context) {
 	externalBlockHeight := k.GetLastObservedBlockHeight(ctx).ExternalBlockHeight
+	var observedResults map[uint64]bool
 	k.IterateOutgoingBridgeCalls(ctx, func(data *types.OutgoingBridgeCall) bool {
 		if data.Timeout > externalBlockHeight {
 			return true
+		}
+		// a call whose result has been observed is settled by that result once it is executed, never by timeout
+		if observedResults == nil {
+			observedResults = k.GetPendingBridgeCallResultNonces(ctx)
+		}
+		if observedResults[data.Nonce] {
+			return false
 		}
 		// 1. handler bridge call refund
 		k.HandleOutgoingBridgeCallRefund(ctx, data)
